@@ -286,6 +286,13 @@ func runC10Late(t *testing.T, seed uint64, planJSON []byte, tier string) (res *R
 			ep.StopOnErr = true
 			nth := 1 + g.Intn(len(ep.Branches))
 			ep.TCRules = []simtc.Rule{{Code: simtc.TBranchRegister, Nth: nth, Action: simtc.ActRollbackNow, Msg: simkit.Pick(g, []string{"", "x2", "x3", "x2"})}}
+			if g.Prob(0.3) {
+				// the coordinator has finished the global transaction: it refuses the
+				// late "phase one failed" report of the blocked branch, every time
+				for k := 1; k <= 6; k++ {
+					ep.TCRules = append(ep.TCRules, simtc.Rule{Code: simtc.TBranchReport, Nth: k, Action: simtc.ActFail, Status: simtc.BSPhaseOneFailed})
+				}
+			}
 			ep.Redeliver = g.Range(0, 2)
 		}
 	}
